@@ -22,6 +22,41 @@ FINDING_DEV = {
 }
 
 
+def docx_walk_model(ctx, traces):
+    """Algorithm-shaped model of the DOCX body walk (DocxWalk.tla): TLC theorem on the document universe,
+    sensitivity runs for the three repaired steps, and binding: the real observation equals the model's output."""
+    from ..tlc import MachineryError, run_tlc
+    from ..traces import validate
+    docx = [t for t in traces if t["hdr"]["fmt"] == "docx"]
+    docs_file = ctx.scratch / "docxwalk-docs.json"
+    docs_file.write_text(json.dumps([t["hdr"]["doc"] for t in docx]))
+    cfg = "SPECIFICATION Spec\nCONSTANTS WalkDev = {}\nINVARIANT Inv_WalkOK\n"
+    r = run_tlc("DocxWalkCheck", cfg, scratch=ctx.scratch, env={"DOCS_FILE": str(docs_file)}, expect_fail=True)
+    ctx.ev.tlc("DocxWalkCheck: modelled DOCX walk satisfies Fidelity on every enumerated document", r)
+    if r.violated:
+        ctx.v.violation(what="DocxWalk.tla: the modelled DOCX walk violates Fidelity on the specification "
+                             "(model and Doc.tla disagree)", observed=r.output[-1500:])
+    for dv in ("Docx!TabBreakDropped", "Docx!BlockSdtLost", "Docx!NestedTableRepeated"):
+        rs = run_tlc("DocxWalkCheck", cfg.replace("WalkDev = {}", f'WalkDev = {{"{dv}"}}'), scratch=ctx.scratch,
+                     env={"DOCS_FILE": str(docs_file)}, expect_fail=True)
+        ctx.ev.tlc(f"DocxWalkCheck sensitivity: pre-fix step {dv} must violate Fidelity", rs, note="expected violation")
+        if not rs.violated:
+            raise MachineryError(f"sensitivity run for {dv} did not fail")
+    br = validate("DocxWalkTrace", "SPECIFICATION TraceSpec\nCONSTANTS WalkDev = {}\nCONSTRAINT TraceAccept\n", docx,
+                  scratch=ctx.scratch, parallel=10, min_chunk=100)
+    ctx.ev.tlc_counts("DocxWalkTrace: real DOCX observations equal the walk model's output", br.distinct, br.states, br.wall_s)
+    for t, tv in zip(docx, br.verdicts):
+        if tv.accepted:
+            ctx.v.ok()
+        else:
+            e = t["ev"][0]
+            ctx.v.violation(what="read_docx().get_full_text() differs from the algorithm model DocxWalk.tla: observed tokens "
+                                 f"{e['obs']} sep {e['sep']}; body {json.dumps(t['hdr']['doc']['units'][0]['blocks'])[:300]}",
+                            case={"fmt": "docx", "doc": t["hdr"]["doc"], "event": e}, observed=t.get("raw"),
+                            where="docx_extractor.py:_extract_full_text_from_body/_extract_table_text/_process_text_element")
+    ctx.ev.replayed(len(docx))
+
+
 def run(ctx):
     ev = ctx.ev
     rng = random.Random(ctx.seed)
@@ -43,6 +78,7 @@ def run(ctx):
     validate_with_findings(ctx, "DocTrace", traces, FINDING_DEV, describe,
                            lambda t: f"{t['hdr']['fmt']} extractor text walk")
     ev.replayed(len(traces))
+    docx_walk_model(ctx, traces)
     ev.set(rule="document shapes enumerated by TLC (DocGen: all 1-block flow documents, 2-block documents "
                 + ("all" if ctx.thorough else "seeded sample") + "; DocGen2: decks, workbooks, paged documents up to 3 units) "
                 "x every format that can express them; non-trivial = distinct (format, document) with at least one "
